@@ -722,6 +722,10 @@ func (sw *SingleAddressWallet) selectRedistributeUTXOs(bh uint64, outputs int, a
 // signed. The returned index should be used as the basis when broadcasting the
 // transactions.
 func (sw *SingleAddressWallet) Redistribute(outputs int, amount, feePerByte types.Currency) (types.ChainIndex, []types.V2Transaction, [][]int, error) {
+	if amount.IsZero() {
+		return types.ChainIndex{}, nil, nil, errors.New("amount must be greater than zero")
+	}
+
 	sw.mu.Lock()
 	defer sw.mu.Unlock()
 
